@@ -146,7 +146,22 @@ def r171_172(ctx):
         oks = oks and len(acc) == 1 and (
             (A.C.canon(acc[0].data["value"]).op == "or" and contains(acc[0].data["value"], lambda s: s is res_))
             or (acc[0].data["value"] is TRUE and any(l is res_ for l in pc_literals(acc[0].pc))))
-        # the flag starts False in every step and the exit is taken on the flag itself (not its negation)
+        # the results of the step's callbacks collected in a list that starts empty, and the exit taken on any(list)
+        anyc = [s for s in subterms(lit) if s.op == "call" and s.args[0] is glob("builtins.any") and len(s.args[1]) == 1 and not s.args[2]]
+        if not oks and anyc and flag:
+            lo = anyc[0].args[1][0]
+            if lo.op == "loopout" and lo.args[2].op == "list" and not lo.args[2].args[0] and len(lo.args[3]) == 1:
+                v_ = lo.args[3][0]
+                while v_.op == "assume":
+                    v_ = v_.args[1]
+                collected = v_.op == "listappend" and v_.args[0].op == "loopvar" and v_.args[1] is res_
+                cl, ca = A.C.canon(lit), A.C.canon(anyc[0])
+                on_any = cl is ca or (cl.op == "and" and ca in cl.args[0] and all(x is ca or x in present for x in cl.args[0])) \
+                    or (cl.op == "ite" and cl.args[0] in present and cl.args[1] is ca and cl.args[2] is FALSE)
+                if collected and on_any:
+                    ctx.ob("R17.2", fq, stopret[0].node, True, "fit returns self as soon as a callback of the current step returned a true "
+                           "value (any() over the list of this step's results)", construct="callback stop")
+                    oks = None
         if oks:
             inits = [e for e in ev_in if e.kind == "store" and e.data.get("tkind") == "name" and e.data["name"] == fname and len(e.loops) == 2
                      and e.seq < cbs[0].seq]
@@ -154,8 +169,9 @@ def r171_172(ctx):
             # `if stop:` or `if self.callbacks_ and <stop>:` (the presence test merged into the exit condition)
             exit_on_flag = cl is cf_ or (cl.op == "and" and cf_ in cl.args[0] and all(x is cf_ or x in present for x in cl.args[0]))
             oks = len(inits) == 1 and inits[0].data["value"] is FALSE and exit_on_flag
-    ctx.ob("R17.2", fq, stopret[0].node if stopret else None, oks, "fit returns self as soon as a callback of the current step "
-           "returned a true value", construct="callback stop")
+    if oks is not None:
+        ctx.ob("R17.2", fq, stopret[0].node if stopret else None, oks, "fit returns self as soon as a callback of the current step "
+               "returned a true value", construct="callback stop")
     # callbacks_ is a list of callables (from __setup)
     rs = A.run(CLS + ".__setup", cls_ctx=CLS)
     st = stores_attr(rs, "callbacks_")
